@@ -23,7 +23,7 @@ for f in sorted(glob.glob(os.path.join(VERIF, "seeded", "*", "meta.json"))):
     nblind += 1 if sm.get("blind") else 0
     rows.append("| %s | %s | %s | %s | %s | %s |" % (m["seed"], sm.get("what", ""), sm.get("needs", ""), "yes" if m.get("confirmed") else "NO", caught + (" - " + how if how else ""), blind))
 block = ["### 5.5 Seeded changes (written by sub-agents that saw only the property text; confirmed, then run against the checks)", "",
-         "Seven rounds (1-3: one change per property; 4, 5 and 6: two per property, `CNNdA`/`CNNeA`/`CNNfA` in v2 and `CNNdB`/`CNNeB`/`CNNfB` in the root module; round 6 came after the clause audit of 5.7; round 7, `CNNgA` (v2) / `CNNgB` (root), is ten changes for ten properties; rounds 2-7 were told the",
+         "Seven rounds (1-3: one change per property; 4, 5 and 6: two per property, `CNNdA`/`CNNeA`/`CNNfA` in v2 and `CNNdB`/`CNNeB`/`CNNfB` in the root module; round 6 came after the clause audit of 5.7; round 7, `CNNgA` (v2) / `CNNgB` (root), is sixteen changes for sixteen properties (v2 for C01-C05, C07, C09, C11, C14-C16, C19; root for C06, C08, C10, C13); rounds 2-7 were told the",
          "one-line descriptions of the earlier changes and asked for a different mechanism; round 3 had to change the root module only wherever",
          "the property names both generations). Each change",
          "compiles, passes the repository's own suite, and comes with a demonstration that fails with the change and passes without it",
